@@ -272,6 +272,20 @@ func cmdCheck(args []string) int {
 	}
 	known := loadKnownFindings()
 	baseline := loadBaseline(id)
+	if *updateBaseline && (len(contractErrs) > 0 || len(unbound) > 0 || len(unsupported) > 0) {
+		// never re-baseline over a contract that no longer binds: that would silently drop its obligations
+		for _, e := range contractErrs {
+			fmt.Println("UNBOUND contract error:", e)
+		}
+		for _, e := range unbound {
+			fmt.Println("UNBOUND", e)
+		}
+		for _, e := range unsupported {
+			fmt.Println("UNSUPPORTED", e)
+		}
+		fmt.Printf("%s: baseline NOT updated (contract errors)\n", id)
+		return 2
+	}
 	if *updateBaseline {
 		var lines []string
 		for _, oid := range order {
